@@ -189,13 +189,19 @@ func asked(indices []phase0.ValidatorIndex) (map[uint64]bool, []uint64) {
 
 // AttesterDuties implements eth2client.AttesterDutiesProvider.  Like a beacon
 // node it answers only for the requested validators.
-func (n *Node) AttesterDuties(_ context.Context, opts *api.AttesterDutiesOpts) (*api.Response[[]*apiv1.AttesterDuty], error) {
+func (n *Node) AttesterDuties(ctx context.Context, opts *api.AttesterDutiesOpts) (*api.Response[[]*apiv1.AttesterDuty], error) {
 	if opts == nil || len(opts.Indices) == 0 {
 		return nil, errors.New("no validator indices specified")
 	}
 	want, list := asked(opts.Indices)
 	f, answered := n.request("att", uint64(opts.Epoch), list)
 	defer answered()
+	if err := ctx.Err(); err != nil {
+		// a client does not answer a request whose context is done
+		f.Err, f.CtxDone = true, true
+		n.w.logFetch(f)
+		return nil, err
+	}
 	if n.w.Chain.takeFail("att") {
 		f.Err = true
 		n.w.logFetch(f)
@@ -224,13 +230,19 @@ func (n *Node) AttesterDuties(_ context.Context, opts *api.AttesterDutiesOpts) (
 }
 
 // ProposerDuties implements eth2client.ProposerDutiesProvider.
-func (n *Node) ProposerDuties(_ context.Context, opts *api.ProposerDutiesOpts) (*api.Response[[]*apiv1.ProposerDuty], error) {
+func (n *Node) ProposerDuties(ctx context.Context, opts *api.ProposerDutiesOpts) (*api.Response[[]*apiv1.ProposerDuty], error) {
 	if opts == nil {
 		return nil, errors.New("no options")
 	}
 	want, list := asked(opts.Indices)
 	f, answered := n.request("prop", uint64(opts.Epoch), list)
 	defer answered()
+	if err := ctx.Err(); err != nil {
+		// a client does not answer a request whose context is done
+		f.Err, f.CtxDone = true, true
+		n.w.logFetch(f)
+		return nil, err
+	}
 	if n.w.Chain.takeFail("prop") {
 		f.Err = true
 		n.w.logFetch(f)
@@ -251,13 +263,19 @@ func (n *Node) ProposerDuties(_ context.Context, opts *api.ProposerDutiesOpts) (
 }
 
 // SyncCommitteeDuties implements eth2client.SyncCommitteeDutiesProvider.
-func (n *Node) SyncCommitteeDuties(_ context.Context, opts *api.SyncCommitteeDutiesOpts) (*api.Response[[]*apiv1.SyncCommitteeDuty], error) {
+func (n *Node) SyncCommitteeDuties(ctx context.Context, opts *api.SyncCommitteeDutiesOpts) (*api.Response[[]*apiv1.SyncCommitteeDuty], error) {
 	if opts == nil || len(opts.Indices) == 0 {
 		return nil, errors.New("no validator indices specified")
 	}
 	want, list := asked(opts.Indices)
 	f, answered := n.request("sync", uint64(opts.Epoch), list)
 	defer answered()
+	if err := ctx.Err(); err != nil {
+		// a client does not answer a request whose context is done
+		f.Err, f.CtxDone = true, true
+		n.w.logFetch(f)
+		return nil, err
+	}
 	if n.w.Chain.takeFail("sync") {
 		f.Err = true
 		n.w.logFetch(f)
@@ -292,7 +310,10 @@ func (n *Node) SyncCommitteeDuties(_ context.Context, opts *api.SyncCommitteeDut
 }
 
 // BeaconBlockHeader implements eth2client.BeaconBlockHeadersProvider ("head" only).
-func (n *Node) BeaconBlockHeader(_ context.Context, _ *api.BeaconBlockHeaderOpts) (*api.Response[*apiv1.BeaconBlockHeader], error) {
+func (n *Node) BeaconBlockHeader(ctx context.Context, _ *api.BeaconBlockHeaderOpts) (*api.Response[*apiv1.BeaconBlockHeader], error) {
+	if err := ctx.Err(); err != nil {
+		return nil, err
+	}
 	slot := n.w.Chain.HeadSlot()
 	var root phase0.Root
 	root[0] = 0xb1
